@@ -165,26 +165,41 @@ Fixpoint mem (k : string) (l : list string) : bool :=
   | x :: tl => String.eqb k x || mem k tl
   end.
 
-(** [__check_dependency]: [None] = raises RuntimeError; [allfactors] is a set. *)
-Fixpoint check_deps_of (name : string) (deps : list dependent) (allf : list string)
-  : option (list string) :=
-  match deps with
-  | [] => Some allf
-  | DCont n :: tl => if mem n allf then check_deps_of name tl (name :: allf) else None
-  | _ :: tl => check_deps_of name tl allf
+(** [__check_dependency] (as repaired by the commits 91e3c5c and 97de4ab of the
+    code): [false] = raises RuntimeError; [allfactors] is a set of names. *)
+
+(** [needed = dependent.factors if isinstance(dependent, ContinuousFactorWindow)
+    else [dependent]], restricted to the elements that pass
+    [isinstance(needed_factor, ContinuousFactor)] (the factors of a window are
+    ContinuousFactors by its [__post_init__]). *)
+Definition needed (d : dependent) : list string :=
+  match d with
+  | DWin w => w_factors w
+  | DCont n => [n]
+  | DDisc _ => []
+  | DNum _ => []
   end.
 
+(** [for needed_factor in needed: if ... name not in allfactors: raise] *)
+Fixpoint check_needed (ns : list string) (allf : list string) : bool :=
+  match ns with
+  | [] => true
+  | n :: tl => if mem n allf then check_needed tl allf else false
+  end.
+
+(** [for dependent in cFactor.get_levels()] *)
+Fixpoint check_deps_of (deps : list dependent) (allf : list string) : bool :=
+  match deps with
+  | [] => true
+  | d :: tl => if check_needed (needed d) allf then check_deps_of tl allf else false
+  end.
+
+(** [for cFactor in self.continuous_factors: ...; allfactors.add(cFactor.name)] *)
 Fixpoint check_dependency_from (fs : list cfactor) (allf : list string) : bool :=
   match fs with
   | [] => true
   | f :: tl =>
-    match cf_deps f with
-    | [] => check_dependency_from tl (cf_name f :: allf)
-    | ds => match check_deps_of (cf_name f) ds allf with
-            | None => false
-            | Some allf' => check_dependency_from tl allf'
-            end
-    end
+    if check_deps_of (cf_deps f) allf then check_dependency_from tl (cf_name f :: allf) else false
   end.
 
 Definition check_dependency (fs : list cfactor) : bool := check_dependency_from fs [].
